@@ -41,8 +41,17 @@ def gen(rnd):
         resid = rnd.randint(1, 5)
         prev = None
         for i in range(rnd.randint(1, 9)):
-            resid += rnd.choice([1, 1, 1, 2, 5])
+            step = rnd.choice([1, 1, 1, 2, 5, 0]) if i else 1
+            resid += step
             resname = rnd.choice(['ALA', 'GLY', 'LYS'])
+            icode = None
+            if step == 0:
+                # another residue with the same number: told apart by an insertion code (52, 52A, 52B) or only by its name
+                if rnd.random() < 0.7:
+                    icode = 'ABCDEFGHI'[i]
+                else:
+                    resname = {'ALA': 'GLY', 'GLY': 'LYS', 'LYS': 'ALA'}[last_resname]
+            last_resname = resname
             n_sc = rnd.choice([0, 0, 1, 2])
             names = ['BB'] + ['SC%d' % (s + 1) for s in range(n_sc)]
             first = None
@@ -53,6 +62,8 @@ def gen(rnd):
                     pos = [rnd.uniform(0, box), rnd.uniform(0, box), rnd.uniform(0, box / 3)]
                 a = {'atomname': nm, 'resname': resname, 'resid': resid, 'chain': 'ABCD'[c], 'position': pos,
                      'flag': third % 3 == 0}
+                if icode:
+                    a['insertion_code'] = icode
                 third += 1
                 if rnd.random() < 0.7:
                     a['_old_resid'] = resid + rnd.choice([0, 0, 10])
